@@ -81,12 +81,12 @@ def check():
         f_tok = MS.one(r"^tokenize$")
         f_push = MM.one(r"lexicon::<impl[^>]*>::push$")
         f_ts = MM.one(r"lexicon::<impl[^>]*>::token_span$")
-        f_end = MM.one(r"lexicon::<impl at oal-model/src/lexicon\.rs:8[0-9][^>]*>::end$")
-        f_trs = MM.one(r"lexicon::<impl at oal-model/src/lexicon\.rs:16[0-9][^>]*>::span$")
-        f_ns = MM.one(r"grammar::<impl at oal-model/src/grammar\.rs:2[0-9][0-9][^>]*>::span$", nargs=1)
-        f_nstart = MM.one(r"grammar::<impl at oal-model/src/grammar\.rs:2[0-9][0-9][^>]*>::start$")
-        f_nend = MM.one(r"grammar::<impl at oal-model/src/grammar\.rs:2[0-9][0-9][^>]*>::end$")
-        f_new = MM.one(r"span::<impl at oal-model/src/span\.rs:1[0-9][^>]*>::new$")
+        f_end = MM.sel("lexicon", "end", arg0=r"&TokenList<")
+        f_trs = MM.sel("lexicon", "span", arg0=r"&TokenRef<")
+        f_ns = MM.sel("grammar", "span", arg0=r"NodeRef<", nargs=1)
+        f_nstart = MM.sel("grammar", "start", arg0=r"NodeRef<")
+        f_nend = MM.sel("grammar", "end", arg0=r"NodeRef<")
+        f_new = MM.sel("span", "new", ret=r"^Span$")
     except Exception as ex:
         o.inconc("MIR: %s" % str(ex)[-300:])
         return o.finish()
